@@ -79,6 +79,10 @@ def reader_texts():
     # DFF is not part of the circuit, wherever it stands
     yield "comments-with-statements-in-them", "# o = OR(a, b)\n# INPUT(zz)\nINPUT(a)  # first\nINPUT(b)\nOUTPUT(o)\n#OUTPUT(n1)\nn1 = NAND(a, b)  # n1 = AND(a, b)\no = NOT(n1)\n# o = BUF(a)\n#q = DFF(o)\n", \
         ["a", "b"], ["o"], {"n1": lambda v: not (v["a"] and v["b"]), "o": lambda v: v["a"] and v["b"]}
+    # nets whose whole name is a keyword in the other letter case than the statement uses (names are case sensitive, keywords are not)
+    yield "nets-named-like-keywords", "INPUT(OR)\nINPUT(and)\nINPUT(Dff)\nOUTPUT(XOR)\nOUTPUT(input)\nXOR = nand(OR, and)\ninput = NOT(Dff)\n", ["OR", "and", "Dff"], ["XOR", "input"], \
+        {"XOR": lambda v: not (v["OR"] and v["and"]), "input": lambda v: not v["Dff"]}
+    yield "nets-named-like-keywords-next-to-their-lower-case-twins", "INPUT(OR)\nINPUT(or)\nOUTPUT(o)\no = AND(OR, or)\n", ["OR", "or"], ["o"], {"o": lambda v: v["OR"] and v["or"]}
     yield "the-same-net-twice-on-an-idempotent-gate", "INPUT(a)\nINPUT(b)\nOUTPUT(o)\nOUTPUT(p)\no = AND(a, a, b)\np = NOR(b, b)\n", ["a", "b"], ["o", "p"], {"o": lambda v: v["a"] and v["b"], "p": lambda v: not v["b"]}
     yield "output-is-input", "INPUT(a)\nINPUT(b)\nOUTPUT(a)\nOUTPUT(g)\ng = AND(a, b)\n", ["a", "b"], ["a", "g"], {"g": lambda v: v["a"] and v["b"], "a": lambda v: v["a"]}
 
